@@ -18,6 +18,9 @@ CLAIMED = {
  "C01": dict(text="Static analysis of the type-checked program (MIR of every workspace target). Decides structural necessary conditions of group scoping on all paths / all containers / all levels / all prefixable commands; it does not decide that restored values are right.",
              note=TRUST+"Assumes the group machinery is only entered through VM::begin_group/end_group (checked: who-may-write).",
              tech="custom MIR dataflow/CFG rules (must-pass-through, loop variance, def-use, who-may-write) via rustc_private driver"),
+ "C08": dict(text="Static analysis (derive(Serialize/Deserialize) output is analysed as ordinary MIR). Decides field coverage of the serialised state graph in both directions, variant coverage of the command (de)serialisers and agreement of the save-stack twin types; fields not covered must be in an audited reconstructible table whose `requires` clauses are re-checked. Does not decide behavioural equality of the restored VM.",
+             note=TRUST+"A field read for another purpose inside a manual Serialize impl counts as written (over-approximation; derive output only reads fields it serialises).",
+             tech="field/variant coverage analysis over MIR of serde impls (projection sets, input-derivation def-use) + audited table"),
  "C09": dict(text="Static analysis. Decides the shutdown protocol for every body of the interpreter crates (linear-resource analysis of ShutdownSignal carriers, signal provenance, execution-stack pairing), the unsafe inventory with its layout preconditions, and enumerates potential-panic sites reachable from VM::run, each discharged by a checked guard / audited argument or reported. Termination and std-internal panics outside the listed kinds are not decided.",
              note=TRUST+"Call graph over-approximates (class-hierarchy resolution of trait calls, fn-pointer registry). Audited discharges without a re-checked `requires` clause are arguments by reading.",
              tech="linear-resource (typestate) dataflow on MIR + call-graph reachability + potential-panic-site enumeration with guard discharge"),
